@@ -8,6 +8,7 @@ import (
 	"io"
 	"math/big"
 	"math/rand"
+	"sort"
 
 	"github.com/aclements/go-moremath/stats"
 )
@@ -28,10 +29,11 @@ func mwLargeReplay(in io.Reader, raw bool, args []string) (*Summary, error) {
 			B     int     `json:"b"`
 			Cnt   [][]int `json:"cnt"`
 			Den   []int   `json:"den"`
+			T     []int   `json:"T"`
 			Items []struct {
-				R    int   `json:"r"`
-				TwoU int   `json:"twoU"`
-				Mult []int `json:"mult"`
+				R    json.RawMessage `json:"r"`
+				TwoU int             `json:"twoU"`
+				Mult []int           `json:"mult"`
 			} `json:"items"`
 		}
 		if e := json.Unmarshal(c, &lc); e != nil || lc.N1 == 0 {
@@ -42,9 +44,26 @@ func mwLargeReplay(in io.Reader, raw bool, args []string) (*Summary, error) {
 		if lc.Kind == "tied2" {
 			mwTied2(sum, lc.A, lc.B, lc.N1, lc.N2, fromLimbs(lc.Den), func(yield func(r, twoU int, mult *big.Int)) {
 				for _, it := range lc.Items {
-					yield(it.R, it.TwoU, fromLimbs(it.Mult))
+					var r int
+					json.Unmarshal(it.R, &r)
+					yield(r, it.TwoU, fromLimbs(it.Mult))
 				}
 			})
+			return
+		}
+		if lc.Kind == "tiedk" {
+			atoms := map[int]*big.Int{}
+			var allocs [][]int
+			for _, it := range lc.Items {
+				var r []int
+				json.Unmarshal(it.R, &r)
+				if atoms[it.TwoU] == nil {
+					atoms[it.TwoU] = new(big.Int)
+					allocs = append(allocs, append([]int{it.TwoU}, r...))
+				}
+				atoms[it.TwoU].Add(atoms[it.TwoU], fromLimbs(it.Mult))
+			}
+			mwTiedK(sum, lc.T, lc.N1, lc.N2, fromLimbs(lc.Den), atoms, allocs)
 			return
 		}
 		// sizes beyond the default exact limit (lopsided pools): the limit is raised for the duration of the case
@@ -265,6 +284,70 @@ func mwTied2(sum *Summary, a, b, n1, n2 int, den *big.Int, items func(func(r, tw
 			} else if res.U != u || !closeRat(res.P, wc, 1e-12, 1e-9) {
 				sum.viol("P-large", small, "two-value pool %d+%d, %d of the smaller in sample 1 (sizes %d, %d): U=%v P(less)=%.15g want %v %.15g", a, b, t.r, n1, n2, res.U, res.P, u, rf(wc))
 			}
+		}
+	}
+}
+
+// mwTiedK: a tied pool of three or more distinct values (T[k] copies of value k) with n1 of them in the first sample; atoms
+// is the exact mass (over den) of every attainable 2U, allocs one allocation per atom (2U followed by r).
+func mwTiedK(sum *Summary, T []int, n1, n2 int, den *big.Int, atoms map[int]*big.Int, allocs [][]int) {
+	small, _ := json.Marshal(map[string]any{"tiedk": T, "n1": n1})
+	sum.Nontrivial++
+	sum.sample(small)
+	defer func() {
+		if r := recover(); r != nil {
+			sum.viol("panic", small, "panic: %v", r)
+		}
+	}()
+	var us []int
+	for u := range atoms {
+		us = append(us, u)
+	}
+	sort.Ints(us)
+	saveE, saveT := stats.MannWhitneyExactLimit, stats.MannWhitneyTiesExactLimit
+	stats.MannWhitneyExactLimit, stats.MannWhitneyTiesExactLimit = 1000, 1000
+	defer func() { stats.MannWhitneyExactLimit, stats.MannWhitneyTiesExactLimit = saveE, saveT }()
+	d := stats.UDist{N1: n1, N2: n2, T: append([]int{}, T...)}
+	cumAt := map[int]*big.Rat{}
+	cum := new(big.Int)
+	for i, u := range us {
+		cum = new(big.Int).Add(cum, atoms[u])
+		x := float64(u) / 2
+		wc, wp := new(big.Rat).SetFrac(cum, den), new(big.Rat).SetFrac(atoms[u], den)
+		cumAt[u] = wc
+		sum.Checks++
+		if got := d.CDF(x); !closeRat(got, wc, 1e-12, 1e-9) {
+			sum.viol("CDF-large", small, "UDist{%d,%d,%v}.CDF(%v)=%.15g want %.15g", n1, n2, T, x, got, rf(wc))
+		}
+		if got := d.PMF(x); !closeRat(got, wp, 1e-12, 1e-9) {
+			sum.viol("PMF-large", small, "UDist{%d,%d,%v}.PMF(%v)=%.15g want %.15g", n1, n2, T, x, got, rf(wp))
+		}
+		if i+1 < len(us) && us[i+1] > u+1 {
+			if got := d.CDF(x + 0.5); !closeRat(got, wc, 1e-12, 1e-9) {
+				sum.viol("CDF-large", small, "UDist{%d,%d,%v}.CDF(%v)=%.15g want %.15g (no mass since %v)", n1, n2, T, x+0.5, got, rf(wc), x)
+			}
+		}
+	}
+	// the test itself on one sample pair per atom (a few of them)
+	step := 1 + len(allocs)/12
+	for i := 0; i < len(allocs); i += step {
+		twoU, r := allocs[i][0], allocs[i][1:]
+		var x1, x2 []float64
+		for k := range T {
+			for j := 0; j < T[k]; j++ {
+				if j < r[k] {
+					x1 = append(x1, float64(k)*1.25-3)
+				} else {
+					x2 = append(x2, float64(k)*1.25-3)
+				}
+			}
+		}
+		sum.Checks++
+		res, err := stats.MannWhitneyUTest(x1, x2, stats.LocationLess)
+		if err != nil || res == nil {
+			sum.viol("error", small, "allocation %v: unexpected error %v", r, err)
+		} else if res.U != float64(twoU)/2 || !closeRat(res.P, cumAt[twoU], 1e-12, 1e-9) {
+			sum.viol("P-large", small, "pool %v allocation %v: U=%v P(less)=%.15g want %v %.15g", T, r, res.U, res.P, float64(twoU)/2, rf(cumAt[twoU]))
 		}
 	}
 }
